@@ -38,6 +38,9 @@ ASSUMPTIONS = [
     "convert_bools / json.loads / kr8s produce",
     "drift_detected: the live object matched before the deviation; the target is a well-formed dict (unique keys); "
     "the path avoids ownerReferences keys and keys compared against last-applied (excluded by the property text)",
+    "drift_corrected: the last-applied extraction on the deviated object returns the same document or None (it fails to "
+    "return only for a truthy non-dict live object, which cannot come back from the API, or for a non-string / unparsable "
+    "annotation VALUE, which no target specifies)",
     "patch_restores: no explicit nulls in the target, set-directed lists hold scalars, map-directed lists hold "
     "maps with scalar key fields, the target does not itself specify the last-applied annotation",
     "f\"{x}\" of compare-as-map key fields is modelled for None/bool/int/str/integral floats (other values: "
@@ -47,9 +50,6 @@ ASSUMPTIONS = [
 ]
 TRUSTED = ["harness/cluster.py applies PATCH as RFC 7386 merge-patch (cross-checked against Payload.merge_patch by C08)",
            "the capture shim around koreo.resource_function.reconcile.validate_match only deep-copies its arguments"]
-
-SIG_ANNOTATIONS = ("metadata / metadata.annotations retyped to a truthy non-map: _extract_last_applied raises "
-                   "AttributeError, no correction is made")
 
 S = "x-koreo-compare-as-set"
 M = "x-koreo-compare-as-map"
@@ -968,11 +968,7 @@ def run_flow_case(ctx: Ctx, case, cases, terms, oracle=True):
         why = flow_oracle(case, p2, p3, va["t"] if va else None)
         if why:
             kind = case["dev"]["kind"]
-            path_keys = [st[1] for st in case["dev"]["path"]]
-            if (why[0] == "raises" and p2["outcome"]["exc"] == "AttributeError" and not p2["validate_args"]
-                    and path_keys in (["metadata"], ["metadata", "annotations"])):
-                sig = SIG_ANNOTATIONS
-            elif why[0] == "raises":
+            if why[0] == "raises":
                 sig = deviation_signature(kind, p2["outcome"]["exc"], "flow")
             elif why[0] == "calls" and not p2["mutations"] and case["policy"] != "never":
                 sig = deviation_signature(kind, "match", "flow")
@@ -1036,7 +1032,8 @@ def created_object(ctx, body, owned):
 
 
 def fixed_flows(ctx: Ctx, cases, terms):
-    """target-specified metadata.annotations retyped in the live object (see SIG_ANNOTATIONS)"""
+    """target-specified metadata.annotations retyped in the live object to a non-map: since 69b5a7d read as
+    'no last-applied annotation', so the drift is reported and the policy's action taken (regression)"""
     body = {"metadata": {"annotations": {"note": "n"}}, "spec": {"a": 1}}
     obj = created_object(ctx, body, True)
     if obj is None:
